@@ -25,6 +25,9 @@ const goBin = "go1.26.8"
 
 var verifDir string
 
+// overlayInfo is mapseam's report (rewritten sites) for the evidence file.
+var overlayInfo string
+
 type checkSpec struct {
 	Property string
 	Level    string
@@ -34,11 +37,16 @@ type checkSpec struct {
 	Overlay  bool
 	Procs    int
 	Tags     string
+	// MustCount: a counter prefix that has to be non-zero, else the run is an
+	// infrastructure failure (e.g. the overlay seam was not compiled in).
+	MustCount string
 }
 
 // Budgets live here (driver side) so that tiers can be tuned without touching
 // the scenarios.
 var specs = map[string]*checkSpec{
+	"C05": {Property: "C05", Level: "exploration", Overlay: true, Runs: map[string]int{"quick": 12000, "thorough": 300000}, Wall: map[string]int{"quick": 45, "thorough": 1500}, MustCount: "probe_site_"},
+	"C18": {Property: "C18", Level: "exploration", Runs: map[string]int{"quick": 20000, "thorough": 600000}, Wall: map[string]int{"quick": 50, "thorough": 1500}},
 	"C06": {Property: "C06", Level: "exploration", Runs: map[string]int{"quick": 30000, "thorough": 1000000}, Wall: map[string]int{"quick": 50, "thorough": 1500}},
 	"C07": {Property: "C07", Level: "exploration", Runs: map[string]int{"quick": 20000, "thorough": 600000}, Wall: map[string]int{"quick": 50, "thorough": 1500}},
 	"C10": {Property: "C10", Level: "exploration", Runs: map[string]int{"quick": 12000, "thorough": 400000}, Wall: map[string]int{"quick": 50, "thorough": 1500}},
@@ -145,6 +153,30 @@ func buildWorker(spec *checkSpec, race bool) string {
 		defer os.Remove(modfile)
 		defer os.Remove(filepath.Join(buildDir, "go-"+tag+".sum"))
 	}
+	overlay := ""
+	if spec != nil && spec.Overlay {
+		// regenerate the map-order seam from the current tree
+		tool := filepath.Join(verifDir, "bin", "mapseam")
+		if _, err := os.Stat(tool); err != nil {
+			c := exec.Command(goBin, "build", "-o", tool, "./tools/mapseam")
+			c.Dir = verifDir
+			c.Env = goEnv()
+			if b, err := c.CombinedOutput(); err != nil {
+				infra("build of mapseam failed:\n%s", b)
+			}
+		}
+		odir := filepath.Join(buildDir, "overlay-"+strconv.Itoa(os.Getpid()))
+		c := exec.Command(tool, "-repo", repo, "-out", odir)
+		c.Dir = verifDir
+		b, err := c.CombinedOutput()
+		if err != nil {
+			infra("mapseam failed (cannot build the map-order seam from this tree):\n%s", b)
+		}
+		overlay = filepath.Join(odir, "overlay.json")
+		overlayInfo = string(b)
+		name = "overlay-" + name
+		defer os.RemoveAll(odir)
+	}
 	out := filepath.Join(buildDir, name)
 	tags := "verif"
 	if spec != nil && spec.Tags != "" {
@@ -156,6 +188,9 @@ func buildWorker(spec *checkSpec, race bool) string {
 	}
 	if modfile != "" {
 		args = append(args, "-modfile", modfile)
+	}
+	if overlay != "" {
+		args = append(args, "-overlay", overlay)
 	}
 	args = append(args, "./worker")
 	cmd := exec.Command(goBin, args...)
@@ -445,6 +480,17 @@ func cmdCheck(args []string) {
 	if total.Runs == 0 {
 		infra("no runs were executed")
 	}
+	if spec.MustCount != "" {
+		n := 0
+		for k, v := range total.Counters {
+			if strings.HasPrefix(k, spec.MustCount) {
+				n += v
+			}
+		}
+		if n == 0 {
+			infra("no counter with prefix %q fired: the seam this check depends on is not compiled in", spec.MustCount)
+		}
+	}
 
 	// known findings
 	known := loadKnown()
@@ -566,6 +612,15 @@ func writeEvidence(id, tier string, seed uint64, spec *checkSpec, md *meta, t *a
 		"known_findings_hit":     known,
 		"tools":                  toolVersions(),
 		"scenario":               md.Name,
+	}
+	if overlayInfo != "" {
+		var sites []string
+		for _, l := range strings.Split(overlayInfo, "\n") {
+			if strings.HasPrefix(l, "site ") {
+				sites = append(sites, strings.TrimPrefix(l, "site "))
+			}
+		}
+		cov["overlay_range_sites"] = sites
 	}
 	if len(t.Samples) == 0 {
 		cov["samples"] = []any{map[string]any{"note": "no sample recorded"}}
